@@ -244,16 +244,21 @@ func trimFrame(fn string) string {
 
 // panicProp maps a library panic to the property that names it.
 func panicProp(stack string) string {
+	// classified by where the panic happened (the innermost go-data-transfer frame), not by who called
+	inner := firstLibFrameOf(stack)
+	if i := strings.Index(inner, "<-"); i > 0 {
+		inner = inner[:i]
+	}
 	switch {
-	case strings.Contains(stack, "channels.channelState."):
+	case strings.HasPrefix(inner, "channels.channelState."):
 		return "C19"
+	case strings.HasPrefix(inner, "message/message1_1prime."):
+		return "C12"
+	case strings.HasPrefix(inner, "network."):
+		return "C15"
 	case strings.Contains(stack, "UpdateValidationStatus") || strings.Contains(stack, "validateRestart") ||
 		strings.Contains(stack, "receiveRestartRequest") || strings.Contains(stack, "receiveNewRequest") || strings.Contains(stack, "acceptRequest"):
 		return "C04"
-	case strings.Contains(stack, "message1_1prime.") && (strings.Contains(stack, "FromNet") || strings.Contains(stack, "FromIPLD")):
-		return "C12"
-	case strings.Contains(stack, "network.(*libp2pDataTransferNetwork)"):
-		return "C15"
 	}
 	return "C20"
 }
